@@ -649,6 +649,10 @@ func osfsEngine(c *Ctx) {
 	// dotfile links to the outside)
 	corpus = append(corpus, []osNode{{"..2024", 'd', ""}, {"..2024/f", 'f', ""}, {"..data", 'L', "..2024"}, {"f", 'L', "..data/f"}, {"l1", 'L', "/..data/f"},
 		{".cfg", 'L', "@OUT@"}, {"l2", 'L', ".cfg/secret"}, {"d", 'd', ""}, {"d/l1", 'L', "../.cfg/secret"}, {".up", 'L', "../../.."}, {"sub", 'L', ".up/etc"}})
+	// names in a string-prefix relation that is not a path-segment relation: `di` vs the ancestor `dir`, `lnk` vs the link's
+	// own name `lnk2`, `up` vs `up2` — each shorter name a link to the outside, met inside the longer one's target
+	corpus = append(corpus, []osNode{{"dir", 'd', ""}, {"dir/l", 'L', "../di/secret"}, {"di", 'L', "@OUT@"}, {"lnk2", 'L', "lnk"}, {"lnk", 'L', "@OUT@/secret"},
+		{"up2", 'L', "up/x"}, {"up", 'L', "../../.."}, {"d", 'd', ""}, {"d/sub", 'd', ""}, {"d/sub/l1", 'L', "../../d/su/secret"}, {"d/su", 'L', "@OUT@"}})
 	// link targets longer than NAME_MAX (up to PATH_MAX is legal): 267 bytes relative, 268 absolute, one in a chain
 	{
 		a, b, cc := strings.Repeat("a", 100), strings.Repeat("b", 100), strings.Repeat("c", 60)
